@@ -925,7 +925,7 @@ func (a *AMF) sendOtherAfterRegistration(ue *ueCtx) bool {
 	switch a.Ch.AfterRegMsg {
 	case 1:
 		name = "LocationReportingControl"
-		im.ProcedureCode.Value, im.Criticality.Value = ngapType.ProcedureCodeLocationReportingControl, 1
+		im.ProcedureCode.Value, im.Criticality.Value = 16, 1 // id-LocationReportingControl (TS 38.413 9.4.7, not the library constant)
 		m := &ngapType.LocationReportingControl{}
 		add := func(id int64, crit uint64, f func(v *ngapType.LocationReportingControlIEsValue)) {
 			ie := ngapType.LocationReportingControlIEs{}
@@ -951,7 +951,7 @@ func (a *AMF) sendOtherAfterRegistration(ue *ueCtx) bool {
 		im.Value.LocationReportingControl = m
 	case 2:
 		name = "UERadioCapabilityCheckRequest"
-		im.ProcedureCode.Value, im.Criticality.Value = ngapType.ProcedureCodeUERadioCapabilityCheck, 0
+		im.ProcedureCode.Value, im.Criticality.Value = 43, 0 // id-UERadioCapabilityCheck
 		m := &ngapType.UERadioCapabilityCheckRequest{}
 		add := func(id int64, crit uint64, f func(v *ngapType.UERadioCapabilityCheckRequestIEsValue)) {
 			ie := ngapType.UERadioCapabilityCheckRequestIEs{}
@@ -971,7 +971,7 @@ func (a *AMF) sendOtherAfterRegistration(ue *ueCtx) bool {
 		im.Value.UERadioCapabilityCheckRequest = m
 	case 3:
 		name = "DeactivateTrace"
-		im.ProcedureCode.Value, im.Criticality.Value = ngapType.ProcedureCodeDeactivateTrace, 1
+		im.ProcedureCode.Value, im.Criticality.Value = 3, 1 // id-DeactivateTrace
 		m := &ngapType.DeactivateTrace{}
 		add := func(id int64, crit uint64, f func(v *ngapType.DeactivateTraceIEsValue)) {
 			ie := ngapType.DeactivateTraceIEs{}
